@@ -2,12 +2,16 @@
   C14 — NGAP decoding is total: error or value, never a crash or hang.
   Model: Stgutg.Model.AperDec (aper.go parseField & helpers) over the schema regenerated from
   src/free5gclib/ngap/ngapType/*.go (Stgutg.Gen.NgapSchema). Helper lemmas: Stgutg/Proofs/AperTotal.lean.
+  Cost (allocation / steps): instrumented model Stgutg.Model.AperDecCost, lemmas Stgutg/Proofs/AperCost*.lean.
 -/
 import Stgutg.Proofs.AperTotal
+import Stgutg.Proofs.AperCostTab
+import Stgutg.Proofs.AperCostTabAlloc
+import Stgutg.Proofs.AperCostTabSteps
 import Stgutg.Gen.NgapSchema
 
 namespace Stgutg.Props.C14
-open Stgutg Stgutg.Aper Stgutg.Proofs.AperTotal
+open Stgutg Stgutg.Aper Stgutg.Proofs.AperTotal Stgutg.Proofs.AperCost
 
 /-- fuel used by the driver and the theorems: above the nesting measure of every type of the schema;
     it depends on the schema only, never on the input -/
@@ -54,6 +58,111 @@ theorem decoder_consumes (bs : Bytes) (v : Val) (r' : Rd)
 /-- non-vacuity: a concrete 7-octet input (NGSetupResponse with an empty IE list) is decoded to a value -/
 example : (match unmarshal Gen.Ngap.schema 400 (.struct Gen.Ngap.pduId) Gen.Ngap.decoderParams
     [0x20, 0x15, 0x00, 0x03, 0x00, 0x00, 0x00] with | .ok _ => true | .error _ => false) = true := by
+  decide +kernel
+
+
+/-! ## Allocation and time are bounded by the input size and the schema's own list-size limits
+
+  `unmarshalCost` (Model/AperDecCost.lean) is the decoder model in a monad that counts — also when the result is an
+  error — `alloc`: the elements passed to `reflect.MakeSlice` (`parseSequenceOf` allocates the announced count BEFORE
+  reading any element) plus the octets copied into OCTET STRING / BIT STRING / open-type buffers, and `steps`: the
+  number of `parseField` entries.
+
+  Why the bounds hold (Proofs/AperCost*.lean): every `MakeSlice` count is at most a constant of the schema
+  (`sliceCount_le`: a constrained count is a ≤ 16-bit field plus lb — the value read is not checked against the
+  range, hence 65 536 rather than 65 535 for `SIZE(1..65535)`; a general length is < 16 384, fragments are refused);
+  every list element consumes at least one bit when it decodes (the table refuses a schema where this is not
+  evident: extension bit, OPTIONAL bitmap, CHOICE index, non-degenerate INTEGER/ENUMERATED, fixed-size string), so a
+  list that COMPLETES has at most as many elements as bits it consumed and only the lists on the current path can be
+  over-claimed; string and open-type copies are bounded by the bits read because `takeOctets n` fails when fewer
+  than n octets remain; the inner value of an open type is decoded from a buffer that was itself read from the input.
+  The table (`costTab`, one pass, decided by the kernel) gives per type `(q, p, s)` with
+      cost ≤ q + p·(bits of input) + s.
+  Bytes and nanoseconds of the Go runtime (element size × `alloc`, time per step) are runtime behaviour: measured per
+  call by the harness (evidence.measurements), not proved. For scale: DESIGN.md measured 3.7–11.6 MB for a 7-octet
+  input announcing 65 535 IEs (one over-claimed list); the budget below allows four such lists on one path.
+-/
+
+/-- **projection**: the instrumented decoder without its counters is the decoder model of `decoder_total`
+    (which the differential runs tie to aper.go) -/
+theorem cost_model_projection (env : Env) (fuel : Nat) (ty : Ty) (params : Params) (bs : Bytes) :
+    (unmarshalCost env fuel ty params bs).1 = unmarshal env fuel ty params bs :=
+  unmarshalCost_fst env fuel ty params bs
+
+/-- Table facts, re-decided on every run over the regenerated schema -/
+theorem alloc_table :
+    costSummary 0 1 Gen.Ngap.schema (.struct Gen.Ngap.pduId) Gen.Ngap.decoderParams =
+      some (⟨0, 9, 262143, true⟩, 0, 9, 262143) := ngap_alloc_summary
+
+theorem steps_table :
+    costSummary 1 0 Gen.Ngap.schema (.struct Gen.Ngap.pduId) Gen.Ngap.decoderParams =
+      some (⟨206, 296, 0, true⟩, 205, 296, 0) := ngap_steps_summary
+
+/-- the generic theorem behind the bounds: for every schema whose cost table is accepted, every covered type, every
+    fuel and EVERY byte string, `ws·steps + wa·alloc ≤ q + p·(8·|bs|) + s` -/
+theorem cost_bound (env : Env) (ws wa : Nat) (ty : Ty) (p : Params) (e : CEntry)
+    (h : topCost ws wa env ty p = some e) (fuel : Nat) (bs : Bytes) :
+    ws * (unmarshalCost env fuel ty p bs).2.steps + wa * (unmarshalCost env fuel ty p bs).2.alloc ≤
+      e.q + e.p * (8 * bs.length) + e.s :=
+  unmarshalCost_bound env ws wa ty p e h fuel bs
+
+/-- **C14 (allocation)**: for EVERY byte string, whatever counts and lengths it claims, `ngap.Decoder` (model)
+    passes at most `9·(8·|bs|) + 262 143` elements/octets to `MakeSlice` and to its string / open-type buffers —
+    linear in the input, plus the schema's own list-size limits along one path (4 nested lists) -/
+theorem C14_alloc_bound (fuel : Nat) (bs : Bytes) :
+    (unmarshalCost Gen.Ngap.schema fuel (.struct Gen.Ngap.pduId) Gen.Ngap.decoderParams bs).2.alloc ≤
+      9 * (8 * bs.length) + 262143 := by
+  have h := (costSummary_spec _ _ _ _ _ _ _ _ _ alloc_table).1
+  have := unmarshalCost_bound Gen.Ngap.schema 0 1 _ _ _ h fuel bs
+  simp only [cst] at this
+  omega
+
+/-- **C14 (time proxy)**: for EVERY byte string the decoder enters `parseField` at most `206 + 296·(8·|bs|)` times -/
+theorem C14_step_bound (fuel : Nat) (bs : Bytes) :
+    (unmarshalCost Gen.Ngap.schema fuel (.struct Gen.Ngap.pduId) Gen.Ngap.decoderParams bs).2.steps ≤
+      206 + 296 * (8 * bs.length) := by
+  have h := (costSummary_spec _ _ _ _ _ _ _ _ _ steps_table).1
+  have := unmarshalCost_bound Gen.Ngap.schema 1 0 _ _ _ h fuel bs
+  simp only [cst] at this
+  omega
+
+/-- the same for every struct type of the schema decoded on its own (the transfer containers, "valueExt") -/
+theorem C14_alloc_bound_any (fuel id : Nat) (params : Params) (hot : params.openType = false) (bs : Bytes) :
+    (unmarshalCost Gen.Ngap.schema fuel (.struct id) params bs).2.alloc ≤ 9 * (8 * bs.length) + 262143 := by
+  obtain ⟨tab, ht, hm⟩ := (costSummary_spec _ _ _ _ _ _ _ _ _ alloc_table).2
+  have := unmarshalCost_bound_any Gen.Ngap.schema 0 1 tab ht id params hot fuel bs
+  rw [hm] at this
+  simp only [cst] at this
+  omega
+
+theorem C14_step_bound_any (fuel id : Nat) (params : Params) (hot : params.openType = false) (bs : Bytes) :
+    (unmarshalCost Gen.Ngap.schema fuel (.struct id) params bs).2.steps ≤ 206 + 296 * (8 * bs.length) := by
+  obtain ⟨tab, ht, hm⟩ := (costSummary_spec _ _ _ _ _ _ _ _ _ steps_table).2
+  have := unmarshalCost_bound_any Gen.Ngap.schema 1 0 tab ht id params hot fuel bs
+  rw [hm] at this
+  simp only [cst] at this
+  omega
+
+set_option maxRecDepth 1000000 in
+/-- non-vacuity: 7 octets that announce 65 535 protocol IEs (NGSetupResponse, IE count `ffff`): the decoder fails,
+    having passed 65 535 elements to `MakeSlice` (+ 3 octets of open-type buffer) in 13 steps — above the announced
+    count, below the bound `9·56 + 262 143` -/
+theorem overclaim_example :
+    (match unmarshalCost Gen.Ngap.schema fuel (.struct Gen.Ngap.pduId) Gen.Ngap.decoderParams
+        [0x20, 0x15, 0x00, 0x03, 0x00, 0xff, 0xff] with
+      | (.error .error, c) => decide (c = ⟨65538, 13⟩)
+      | _ => false) = true := by
+  decide +kernel
+
+set_option maxRecDepth 1000000 in
+/-- non-vacuity: a valid 57-octet NGSetupRequest (the value of `Props.C04.ngSetupRequest`) decodes with 117
+    elements/octets allocated in 71 steps -/
+theorem valid_example :
+    (unmarshalCost Gen.Ngap.schema fuel (.struct Gen.Ngap.pduId) Gen.Ngap.decoderParams
+      [0x00, 0x15, 0x00, 0x35, 0x00, 0x00, 0x04, 0x00, 0x1b, 0x00, 0x08, 0x00, 0x02, 0xf8, 0x39, 0x00, 0x00, 0x01, 0x04,
+       0x00, 0x52, 0x40, 0x09, 0x03, 0x00, 0x66, 0x72, 0x65, 0x65, 0x35, 0x67, 0x63, 0x00, 0x66, 0x00, 0x10, 0x00, 0x00,
+       0x00, 0x00, 0x01, 0x00, 0x02, 0xf8, 0x39, 0x00, 0x00, 0x10, 0x08, 0x01, 0x02, 0x03, 0x00, 0x15, 0x40, 0x01, 0x20]).2 =
+      ⟨117, 71⟩ := by
   decide +kernel
 
 end Stgutg.Props.C14
